@@ -1419,8 +1419,8 @@ func (t *Tree) ClearTerminalEdgeComments() {
 // At the end, bitsets should not need to be updated
 func (t *Tree) RemoveEdges(removeRoot, removeTips bool, edges ...*Edge) {
 	for _, e := range edges {
-		// Tip node
-		if e.Right().Tip() {
+		// Tip node (the root may be a tip too)
+		if e.Right().Tip() || e.Left().Tip() {
 			if removeTips {
 				e.SetLength(0.0)
 			}
